@@ -19,4 +19,9 @@ class MatrixOfCellIdentifiersTokenTranslator(AbstractTranslator):
         matrix_cell_codes = '[' + ','.join(
             ['[' + ','.join([CellTranslator.translate(j, excel, context) for j in i]) + ']' for i in matrix]) + ']'
 
+        if start_cell.row is None:
+            # a whole-column area also covers the cells that are set below the last row of the workbook later on
+            matrix_cell_codes = f'self._with_rows_set_below({start_cell.title}, {start_cell.column}, ' \
+                                f'{finish_cell.column}, {matrix_cell_codes})'
+
         return context.set_sub_cell(start_cell, matrix_cell_codes)
